@@ -45,11 +45,13 @@ def rule_checksum_gate(ctx: Ctx, rep: Report) -> None:
     sc = ctx.func(f"{DS}.strip_checksum")
     g = ctx.cfg(sc)
     cs = refusal_constraints(ctx, sc)
-    bad = [c for c in cs if c.op == "!=" and {c.subject, c.value_text} == {"given_checksum", "expected"} and ("separator", True) in c.facts]
+    ms: dict[str, str] = {}
+    part = PT.find(sc.node, "$body, $sep, $given = descriptor.partition('#')", ms)
+    ex = PT.find(sc.node, "$exp = checksum($body)", ms)
+    rep.ob(rule, "strip_checksum:computed_from_body", part is not None and ex is not None, sc.where(ex), "expected = checksum(body), body = what precedes the '#'")
+    bad = [c for c in cs if c.op == "!=" and {str(c.subject), str(c.value_text).split(" |")[0]} == {ms.get("given", "?"), ms.get("exp", "?")} and any(p and str(t) == ms.get("sep") for t, p in c.facts)]
     rep.ob(rule, "strip_checksum:mismatch_refused", bool(bad), sc.where(), "a given checksum that differs from the computed one is refused")
     rep.ob(rule, "strip_checksum:second_hash_refused", any(c.op == "in" and c.subject == "'#'" for c in cs), sc.where(), "a second '#' is refused")
-    ex = [n for n in own_nodes(sc.node) if isinstance(n, ast.Assign) and norm(n.targets[0]) == "expected"]
-    rep.ob(rule, "strip_checksum:computed_from_body", bool(ex) and norm(ex[0].value) == "checksum(body)", sc.where(), "expected = checksum(body)")
     where = "btclib/descriptors/descriptors.py:1"
     rep.ob(rule, "INPUT_CHARSET", ctx.const(DS, "INPUT_CHARSET") == "0123456789()[],'/*abcdefgh@:$%{}IJKLMNOPQRSTUVWXYZ&+-.;<=>?!^_|~ijklmnopqrstuvwxyzABCDEFGH`#\"\\ ", where, "BIP380 input charset")
     rep.ob(rule, "CHECKSUM_CHARSET", ctx.const(DS, "CHECKSUM_CHARSET") == "qpzry9x8gf2tvdw0s3jn54khce6mua7l", where, "BIP380 checksum charset")
@@ -59,7 +61,11 @@ def rule_checksum_gate(ctx: Ctx, rep: Report) -> None:
     xp = PT.text(ctx.func(f"{DS}.__descsum_expand"))
     rep.ob(rule, "expand_shape", "symbols.append(index & 31)" in xp and "groups.append(index >> 5)" in xp and "groups[0] * 9 + groups[1] * 3 + groups[2]" in xp and "groups[0] * 3 + groups[1]" in xp, ctx.func(f"{DS}.__descsum_expand").where(), "BIP380 symbol expansion")
     ck = PT.text(ctx.func(f"{DS}.checksum"))
-    rep.ob(rule, "checksum_shape", "0, 0, 0, 0, 0, 0, 0, 0]" in ck and "^ 1" in ck and "polymod >> 5 * (7 - i) & 31" in ck.replace("(polymod >> 5 * (7 - i))", "polymod >> 5 * (7 - i)") and "range(8)" in ck, ctx.func(f"{DS}.checksum").where(), "eight zero symbols, xor 1, eight 5-bit groups")
+    ckf = ctx.func(f"{DS}.checksum")
+    mk: dict[str, str] = {}
+    okk = PT.has(ckf.node, "$sy = [*__descsum_expand(descriptor), 0, 0, 0, 0, 0, 0, 0, 0]", mk) and PT.has(ckf.node, "$pm = __descsum_polymod($sy) ^ 1", mk) \
+        and PT.has(ckf.node, "return ''.join((CHECKSUM_CHARSET[$pm >> 5 * (7 - $i) & 31] for $i in range(8)))", mk)
+    rep.ob(rule, "checksum_shape", okk, ckf.where(), "eight zero symbols, xor 1, eight 5-bit groups")
     xe = ctx.func(f"{DS}.__descsum_expand")
     rep.ob(rule, "expand:invalid_char_refused", any(c.subject == "index" and c.op == "==" and c.value == -1 for c in refusal_constraints(ctx, xe)), xe.where(), "a character outside the charset is refused")
 
